@@ -166,7 +166,7 @@ class Scenario:
         return v
 
 
-def make_scenario(rs, kernel, idx, force_shift=False, flat=False):
+def make_scenario(rs, kernel, idx, force_shift=False, flat=False, extreme=None):
     """structured, mostly valid targets; NaN / -inf / +inf regions included"""
     dim = int(rs.choice([1, 1, 2, 2, 3, 4]))
     if kernel.endswith("CWMH"):
@@ -179,6 +179,8 @@ def make_scenario(rs, kernel, idx, force_shift=False, flat=False):
     elif kernel.endswith("CWMH") and rs.rand() < 0.5:
         fam = "support"      # invalid proposals at components that are not the last of the sweep
     k0 = int(rs.randint(0, max(1, dim - 1)))   # coordinate carrying the support restriction (never the last one for dim >= 2)
+    if extreme:
+        fam = extreme
     if force_shift:
         fam = "quad"        # DESIGN §5 #12 (and the analogous shifted random-walk proposal): always exercised
     lo = float(rs.choice([-1.0, -0.5, 0.0]))
@@ -199,7 +201,14 @@ def make_scenario(rs, kernel, idx, force_shift=False, flat=False):
         g[1:] += -0.5 * x[:-1]
         return g
 
-    if fam == "flat":
+    if fam in ("steep4", "steep6"):
+        # steep non-Gaussian targets: |Δ log π| of 1e3…1e6 between neighbouring points at large |x|
+        pw = 4 if fam == "steep4" else 6
+        F, G = (lambda x: -float(np.sum(x ** pw)) / pw), (lambda x: -(x ** (pw - 1)))
+    elif fam == "huge":
+        K = float(rs.choice([1e3, 1e4, 1e6]))
+        F, G = (lambda x: -0.5 * K * float(np.sum((x - mu) ** 2))), (lambda x: -K * (x - mu))
+    elif fam == "flat":
         eps_ = float(rs.choice([0.0, 0.0, 1.0 / 64]))
         F, G = (lambda x: -eps_ * float(np.sum(x ** 2))), (lambda x: -2 * eps_ * x)
     elif fam == "quad":
@@ -419,7 +428,7 @@ class UHook:
         if self.forced is not None:
             t.us.append(self.forced)
             return self.forced
-        mode = self.rs.choice(["grid", "below", "above", "far", "zero", "top", "between"], p=[0.15, 0.25, 0.25, 0.1, 0.04, 0.06, 0.15])
+        mode = self.rs.choice(["grid", "below", "above", "far", "zero", "top", "between", "tiny"], p=[0.13, 0.25, 0.25, 0.1, 0.04, 0.06, 0.12, 0.05])
         u = None
         try:
             rr = self.ratio_now()
@@ -450,6 +459,8 @@ class UHook:
             u = 0.0
         elif mode == "top":
             u = 1.0 - 2.0 ** -int(self.rs.randint(2, 40))
+        elif mode == "tiny":
+            u = 10.0 ** -int(self.rs.randint(3, 300))
         elif mode in ("below", "above", "far") and rr is not None:
             r = rr[0]
             if r == r and abs(r) != math.inf and r < 0 and r > -700:
@@ -467,8 +478,12 @@ class UHook:
 
 
 # ----------------------------------------------------------------------------- running the implementation
-def build_sampler(cuqi, kernel, sc, scale, x0):
-    """real sampler on recorded wrappers of the scenario's target"""
+def cp(x0):
+    return list(x0) if isinstance(x0, list) else x0.copy()
+
+
+def build_target(cuqi, kernel, sc):
+    """recorded wrappers of the scenario's target as a cuqi object"""
     D = cuqi.distribution
     if sc.real is not None:
         post, lik, prior = sc.real()
@@ -512,26 +527,33 @@ def build_sampler(cuqi, kernel, sc, scale, x0):
             return s
         prior.sample = rsample
         sc._xi = []
+    return target
+
+
+def build_sampler(cuqi, kernel, sc, scale, x0):
+    """real sampler on recorded wrappers of the scenario's target"""
+    D = cuqi.distribution
+    target = build_target(cuqi, kernel, sc)
     E, L = cuqi.experimental.mcmc, cuqi.sampler
     prop = None
     if sc.prop_mean is not None:
         prop = D.Gaussian(sc.prop_mean.copy(), 1)
     if kernel == "expMH":
-        return E.MH(target, proposal=prop, scale=scale, initial_point=x0.copy())
+        return E.MH(target, proposal=prop, scale=scale, initial_point=cp(x0))
     if kernel == "expCWMH":
-        return E.CWMH(target, scale=scale, initial_point=x0.copy())
+        return E.CWMH(target, scale=scale, initial_point=cp(x0))
     if kernel == "expPCN":
-        return E.PCN(target, scale=scale, initial_point=x0.copy())
+        return E.PCN(target, scale=scale, initial_point=cp(x0))
     if kernel == "expMALA":
-        return E.MALA(target, scale=scale, initial_point=x0.copy())
+        return E.MALA(target, scale=scale, initial_point=cp(x0))
     if kernel == "legMH":
-        return L.MH(target, proposal=prop, scale=scale, x0=x0.copy())
+        return L.MH(target, proposal=prop, scale=scale, x0=cp(x0))
     if kernel == "legCWMH":
-        return L.CWMH(target, scale=scale, x0=x0.copy())
+        return L.CWMH(target, scale=scale, x0=cp(x0))
     if kernel == "legPCN":
-        return L.pCN(target, scale=scale, x0=x0.copy())
+        return L.pCN(target, scale=scale, x0=cp(x0))
     if kernel == "legMALA":
-        return L.MALA(target, scale=scale, x0=x0.copy())
+        return L.MALA(target, scale=scale, x0=cp(x0))
     raise ValueError(kernel)
 
 
@@ -570,6 +592,8 @@ def new_T(kernel, sc, hist, step, x, logd, grad, scale, script, hook):
     t.x, t.logd, t.grad, t.scale = x, logd, grad, scale
     t.us, t.draws, t.queries, t.gqueries = [], [], [], []
     t.xi = t.sigma = t.z = None
+    t.int_dtype = False
+    t.f32 = False
     sc.calls.clear(); sc.gcalls.clear(); script.log.clear()
     sc.events = script.log
     if kernel.endswith("PCN"):
@@ -578,7 +602,7 @@ def new_T(kernel, sc, hist, step, x, logd, grad, scale, script, hook):
     return t
 
 
-def run_exp(cuqi, kernel, sc, hist, nsteps, scale, x0, script, hook, out):
+def run_exp(cuqi, kernel, sc, hist, nsteps, scale, x0, script, hook, out, sc2=None):
     with quiet(), script.installed():
         s = build_sampler(cuqi, kernel, sc, scale, x0)
         hook.t = None
@@ -592,24 +616,54 @@ def run_exp(cuqi, kernel, sc, hist, nsteps, scale, x0, script, hook, out):
                 s.sample(3)
             state = s.get_state()
             old_post = exp_snapshot(kernel, s)
-            sc_calls, sc_g = sc.calls, sc.gcalls
             s2 = build_sampler(cuqi, kernel, sc, 0.3 if not kernel.endswith("CWMH") else scale, np.zeros(sc.dim) + 0.5)
             s2.initialize()
             s2.set_state(state)
             s = s2
             new_pre = exp_snapshot(kernel, s)
             out.append(("reload", kernel, sc, old_post, new_pre))
-        for i in range(nsteps):
+        elif hist == "retarget":
+            # same sampler object, new target: caches must belong to the CURRENT target after reinitialize()
+            s.sample(3)
+            sc = sc2
+            s.target = build_target(cuqi, kernel, sc)
+            s.reinitialize()
+        elif hist == "repoint-new":
+            s.sample(3)
+            s.initial_point = np.asarray(s.initial_point, dtype=float) * 0 + np.arange(1, sc.dim + 1) / 2.0
+            s.reinitialize()
+        elif hist == "repoint-inplace":
+            s.sample(3)
+            ip = s.initial_point
+            if isinstance(ip, np.ndarray) and ip.dtype == np.float64:
+                ip[:] = np.arange(1, sc.dim + 1) / 2.0        # same object, mutated in place
+            else:
+                s.initial_point = np.arange(1, sc.dim + 1) / 2.0
+            s.reinitialize()
+        # run through the public sample() loop with step() recorded (call-through)
+        orig_step = s.step
+        recs = []
+
+        def wstep():
             x, logd, grad, sca = exp_snapshot(kernel, s)
-            t = new_T(kernel, sc, hist, i, x, logd, grad, sca, script, hook)
-            acc = s.step()
+            t = new_T(kernel, sc, hist, len(recs), x, logd, grad, sca, script, hook)
+            t.int_dtype = bool(np.issubdtype(np.asarray(s.current_point).dtype, np.integer))
+            t.f32 = np.asarray(s.current_point).dtype == np.float32
+            acc = orig_step()
             hook.t = None
             finish_T(t, script)
             t.x1, t.logd1, t.grad1, _ = exp_snapshot(kernel, s)
             t.acc = [int(a) for a in np.atleast_1d(acc)]
-            out.append(("T", t))
-            # the sampler's own bookkeeping of the step (as `sample` does)
-            s._acc.append(acc); s._samples.append(s.current_point)
+            recs.append(t)
+            return acc
+        s.step = wstep
+        n0 = len(s._samples)
+        s.sample(nsteps)
+        stored = [arr(v) for v in s._samples[n0:]]
+        got = s.get_samples().samples
+    for t in recs:
+        out.append(("T", t))
+    out.append(("stored", kernel, sc, recs, stored, np.asarray(got)[:, n0:] if np.asarray(got).ndim == 2 else None))
 
 
 def run_leg(cuqi, kernel, sc, hist, nsteps, scale, x0, script, hook, out):
@@ -637,9 +691,16 @@ def run_leg(cuqi, kernel, sc, hist, nsteps, scale, x0, script, hook, out):
             return res
         s.single_update = wrapped
         if hist == "adapt":
-            s.sample_adapt(nsteps + 1 - 2, 2)        # N + Nb = nsteps + 1 states
+            res = s.sample_adapt(nsteps + 1 - 2, 2)        # N + Nb = nsteps + 1 states
+            nb = 2
         else:
-            s.sample(nsteps + 1)
+            res = s.sample(nsteps + 1)
+            nb = 0
+    # returned chain: column c is samples[:, nb + c], i.e. the result of transition nb + c - 1
+    chain = np.asarray(res.samples)
+    if kernel != "legCWMH" and chain.ndim == 2:     # legacy CWMH overwrites the stored previous column through a view (C14 finding): not judged here
+        pairs = [(c, nb + c - 1) for c in range(chain.shape[1]) if 0 <= nb + c - 1 < len(recs)]
+        out.append(("stored", kernel, sc, [recs[i] for _, i in pairs], None, chain[:, [c for c, _ in pairs]]))
     for i, t in enumerate(recs):
         out.append(("T", t))
         if i > 0:
@@ -673,7 +734,8 @@ def model_line(t):
         if t.z is None or len(t.us) != d or len(t.queries) != d:
             return None
         ells = [math.log(u) if u > 0 else -math.inf for u in t.us]
-        return f"cw {k} {qv(t.x)} {xs(t.logd)} {qv(t.scale)} {qv(t.z)} {xsv(ells)} {xsv([v for _, v in t.queries])}"
+        return (f"cw {k} {qv(t.x)} {xs(t.logd)} {qv(t.scale)} {qv(t.z)} {xsv(ells)} {xsv([v for _, v in t.queries])} "
+                f"{'int' if t.int_dtype else 'float'}")
     return None
 
 
@@ -709,12 +771,21 @@ def oracle(ctx, t, stats):
         xt = t.x.copy()
         cur = sc.post(xt)
         point_failed = False
+        trunc_failed = False
         for j in range(d):
             qpt, qval = t.queries[comps[j][0]]
             u = comps[j][1]
             # each inner iteration must be an MH step whose proposal differs from the CURRENT state in
             # coordinate j only (one-coordinate proposal centred at the current coordinate)
             expect = xt.copy(); expect[j] = qpt[j]
+            nd = [dr for dr in t.draws if dr[0] == "normal"]
+            if nd and not trunc_failed:
+                drawn = (nd[-1][1] + nd[-1][2] * nd[-1][3])
+                if drawn.shape == (d,) and not close(qpt[j], drawn[j], 1e-6):
+                    trunc_failed = True
+                    fail("proposal-truncated", float(drawn[j]), float(qpt[j]),
+                         f"component {j}: the coordinate evaluated/stored is not the drawn proposal coordinate (altered by the dtype of the "
+                         "work vector); the chain then lives on a lattice and the proposal is not the symmetric random walk")
             if not np.array_equal(qpt, expect, equal_nan=True) and not point_failed:
                 point_failed = True
                 fail("component-point", {"component": j, "evaluated_at": [float(v) for v in expect]},
@@ -785,7 +856,7 @@ def oracle(ctx, t, stats):
         if not ok:
             fail("frame-accept", "point = proposal, caches = values at the proposal", "differs", "an accepted transition did not install the proposal and its log-density/gradient")
     # stale cache before the step (e.g. after reload / warm-up)
-    if not (same_float(t.logd, cache_true) or close(t.logd, cache_true, 1e-9)) and t.step > 0:
+    if not (same_float(t.logd, cache_true) or close(t.logd, cache_true, 1e-9)):
         fail("stale-cache", repr(cache_true), repr(t.logd), "cached log-density does not belong to the current point")
     return fails
 
@@ -803,7 +874,7 @@ def compare(ctx, t, out, stats):
             return False
         if all(a == float(b) for a, b in zip(mv, v)):
             return True
-        return vclose(v, pv(tok), 1e-12)
+        return vclose(v, pv(tok), 1e-6 if t.f32 else 1e-12)
 
     if out in ("bad-op", "err-cert"):
         return [("driver", out, "ok")]
@@ -817,7 +888,7 @@ def compare(ctx, t, out, stats):
         if not tok_eq_float(logd1, t.logd1):
             diffs.append(("cached-logd", logd1, repr(t.logd1)))
         mq = pm(qs)
-        if len(mq) != len(t.queries) or not all(vclose(p, m, 1e-12) for (p, _), m in zip(t.queries, mq)):
+        if len(mq) != len(t.queries) or not all(vclose(p, m, 1e-6 if t.f32 else 1e-12) for (p, _), m in zip(t.queries, mq)):
             diffs.append(("proposal-points", qs[:120], [[float(v) for v in p] for p, _ in t.queries]))
         return diffs
     if k.endswith("MALA"):
@@ -848,31 +919,39 @@ def compare(ctx, t, out, stats):
 def special_runs(ctx, cuqi, records, stats):
     """IEEE special values in the cache and at the proposal, u = 0 included: one real transition
     per (kernel, cached value, value at proposal, u); they go through the same replay / oracle."""
-    vals = [math.nan, -math.inf, math.inf, -2.0, 0.0, 1.5]
+    vals = [math.nan, -math.inf, math.inf, -2.0, 0.0, 1.5, -1e3, 1e3, -1e4, 1e4]      # ±1e3, ±1e4 overflow / underflow under exp
     us = [0.0, 0.25, 1.0 - 2.0 ** -20]
+    combos = [(k, cur, star, u, None) for k in KERNELS for cur in vals for star in vals for u in us]
+    # MALA: huge target difference against a huge opposing proposal ratio (gradient at the proposal chosen freely)
+    for k in ("expMALA", "legMALA"):
+        for star in (1e3, -1e3, 2.5e3, -2.5e3, 1e4):
+            for g1 in (0.0, 100.0, -100.0, 200.0, -200.0, 400.0):
+                for u in (0.25, 1e-200, 1.0 - 2.0 ** -20):
+                    combos.append((k, 0.0, star, u, g1))
     n = 0
-    for k in KERNELS:
-        for cur in vals:
-            for star in vals:
-                for u in us:
-                    def F(x, cur=cur, star=star):
-                        return cur if x[0] == 0.5 else (0.0 if x[0] == 1.0 else star)
-                    d = 2 if k.endswith("CWMH") else 1
-                    sc = Scenario(f"special[{cur!r},{star!r}]", d, F, lambda x, d=d: np.zeros(d))
-                    sc.fam = "special"
-                    if k.endswith("PCN"):
-                        sc.prior_mean, sc.prior_var = np.zeros(1), np.ones(1)
-                    script = Script(ctx.seed + n)
-                    hook = UHook(None, forced=u)
-                    script.u_hook = hook
-                    n += 1
-                    try:
-                        (run_exp if k.startswith("exp") else run_leg)(cuqi, k, sc, "fresh" if k.startswith("exp") else "plain", 1, 0.5,
-                                                                        np.full(d, 0.5), script, hook, records)
-                    except Exception as e:
-                        stats["special-raised"] = stats.get("special-raised", 0) + 1
-                        if stats["special-raised"] <= 3:
-                            ctx.note(f"special-value case raised: {k} cached={cur!r} proposal={star!r} u={u}: {repr(e)[:100]}")
+    for (k, cur, star, u, g1) in combos:
+        def F(x, cur=cur, star=star):
+            return cur if x[0] == 0.5 else (0.0 if x[0] == 1.0 else star)
+        d = 2 if k.endswith("CWMH") else 1
+        if g1 is None:
+            G = lambda x, d=d: np.zeros(d)
+        else:
+            G = lambda x, g1=g1: np.array([1.0 if x[0] == 0.5 else g1])
+        sc = Scenario(f"special[{cur!r},{star!r}" + ("" if g1 is None else f",grad={g1!r}") + "]", d, F, G)
+        sc.fam = "special"
+        if k.endswith("PCN"):
+            sc.prior_mean, sc.prior_var = np.zeros(1), np.ones(1)
+        script = Script(ctx.seed + n)
+        hook = UHook(None, forced=u)
+        script.u_hook = hook
+        n += 1
+        try:
+            (run_exp if k.startswith("exp") else run_leg)(cuqi, k, sc, "fresh" if k.startswith("exp") else "plain", 1, 0.5,
+                                                            np.full(d, 0.5), script, hook, records)
+        except Exception as e:
+            stats["special-raised"] = stats.get("special-raised", 0) + 1
+            if stats["special-raised"] <= 3:
+                ctx.note(f"special-value case raised: {k} cached={cur!r} proposal={star!r} u={u}: {repr(e)[:100]}")
 
 
 # ----------------------------------------------------------------------------- refusals
@@ -928,7 +1007,7 @@ def cw_nonsymmetric(ctx, cuqi):
         np.random.seed(4242 + ctx.seed)
         with quiet():
             s = cuqi.experimental.mcmc.CWMH(t, proposal=D.Gamma(shape=lambda location: np.abs(location) + 1, rate=lambda scale: 1 / scale, geometry=2),
-                                            scale=sc_, initial_point=x0.copy())
+                                            scale=sc_, initial_point=cp(x0))
             s.initialize()
         impl = "ok"
     except Exception:
@@ -989,13 +1068,32 @@ def run(ctx):
         for i in range(n_sc):
             real = (i % 5 == 4)
             flat = (not real) and i % 10 in (3, 6, 7)
-            sc = make_real_scenario(cuqi, rs, k, i) if real else make_scenario(rs, k, i, force_shift=(i in (1, 2)), flat=flat)
+            extreme = None
+            if i % 10 == 5:
+                extreme = "steep4" if (i // 10) % 2 == 0 else "steep6"
+            elif i % 20 == 10:
+                extreme = "huge"
+            sc = make_real_scenario(cuqi, rs, k, i) if real else make_scenario(rs, k, i, force_shift=(i in (1, 2)), flat=flat, extreme=extreme)
+            sc2 = None
             if k.startswith("exp"):
                 hist = ["fresh", "warmup", "reload", "fresh"][i % 4]
                 if flat:
                     hist = "warmup-reload" if i % 10 == 7 else "warmup-long"
-                elif i % 10 == 8:
+                elif i % 20 == 8:
                     hist = "warmup-long"
+                elif i % 20 in (11, 18):
+                    hist = "retarget"        # construct with A, sample, set target B, reinitialize
+                    sc2 = make_scenario(rs, k, 1000 + i)
+                    while sc2.dim != sc.dim:
+                        sc2 = make_scenario(rs, k, 1000 + i)
+                    # the proposal object stays with the sampler
+                    sc2.prop_mean = sc.prop_mean
+                    if sc2.cls == "proposal-mean-nonzero" or sc.prop_mean is not None:
+                        sc2.cls = "proposal-mean-nonzero" if sc.prop_mean is not None else "std"
+                elif i % 20 == 12:
+                    hist = "repoint-new"
+                elif i % 20 == 0 and i > 0:
+                    hist = "repoint-inplace"
             else:
                 hist = ["plain", "adapt", "plain"][i % 3]
             x0 = rs.randint(-4, 5, size=sc.dim) / 2.0
@@ -1011,12 +1109,38 @@ def run(ctx):
                 scale = float(rs.choice([0.5, 1.0, 2.0, 4.0]))
             else:
                 scale = float(rs.choice([0.25, 0.5, 1.0, 2.0]))
+            if extreme:
+                # far out in the tails, tiny and large steps: log-ratios of +-1e3...1e12, for MALA nearly
+                # cancelled by the opposing proposal ratio
+                x0 = rs.choice([-1.0, 1.0], size=sc.dim) * rs.choice([5.0, 8.0, 10.0, 12.0], size=sc.dim)
+                if k.endswith("MALA"):
+                    scale = float(rs.choice([0.02, 0.01, 1.0 / 64, 0.5, 2.0]))
+                elif k.endswith("PCN"):
+                    scale = float(rs.choice([0.25, 0.75]))
+                elif k.endswith("CWMH"):
+                    scale = float(rs.choice([1.0, 4.0]))
+                else:
+                    scale = float(rs.choice([0.25, 4.0, 8.0]))
+            # dtype / container of the starting point
+            x0kind = str(rs.choice(["f64", "f64", "f64", "int", "f32", "list"]))
+            if x0kind == "int":
+                x0 = np.rint(x0).astype(int)
+                if k == "expCWMH":
+                    sc.cls = "int-x0"       # work vectors inherit the integer dtype (listed finding)
+            elif x0kind == "f32":
+                x0 = x0.astype(np.float32)
+            elif x0kind == "list" and k != "expPCN":      # experimental PCN refuses a list (float * list raises TypeError)
+                x0 = [float(v) for v in x0]
+            stats["x0-" + x0kind] = stats.get("x0-" + x0kind, 0) + 1
             script = Script(ctx.seed * 7919 + ki * 131 + i, dyadic=not real)
             hook = UHook(np.random.RandomState(ctx.seed * 104729 + ki * 17 + i))
             script.u_hook = hook
             n = nsteps if hist != "adapt" else 22
             try:
-                (run_exp if k.startswith("exp") else run_leg)(cuqi, k, sc, hist, n, scale, x0, script, hook, records)
+                if k.startswith("exp"):
+                    run_exp(cuqi, k, sc, hist, n, scale, x0, script, hook, records, sc2=sc2)
+                else:
+                    run_leg(cuqi, k, sc, hist, n, scale, x0, script, hook, records)
             except Exception as e:
                 ctx.note(f"scenario raised: {k} {sc.name} {hist}: {repr(e)[:160]}")
                 stats["raised"] = stats.get("raised", 0) + 1
@@ -1079,6 +1203,21 @@ def run(ctx):
                 key = f"{k}:{sc.cls}:chain-link"
                 ctx.fail(key, b.desc(), "next transition starts from the previous result (point and caches)", "differs",
                          "between transitions the state or its cached density/gradient changed")
+        elif r[0] == "stored":
+            _, k, sc, recs_, lst, mat = r
+            for i_, t_ in enumerate(recs_):
+                ctx.case(f"{k}:stored-state", {"target": sc.name, "step": t_.step})
+                cols = []
+                if lst is not None and i_ < len(lst):
+                    cols.append(lst[i_])
+                if mat is not None and i_ < mat.shape[1]:
+                    cols.append(np.asarray(mat[:, i_], dtype=float))
+                for col in cols:
+                    if col.shape != t_.x1.shape or not np.array_equal(col, t_.x1, equal_nan=True):
+                        ctx.fail(f"{k}:{t_.sc.cls}:stored-state", {**t_.desc(), "stored": [float(v) for v in np.ravel(col)], "state_after_transition": [float(v) for v in t_.x1]},
+                                 "stored sample == state after the transition (the accepted proposal, float64)", "differs",
+                                 "the chain stores a point that is not the state the cached density belongs to")
+                        break
         elif r[0] == "reload":
             _, k, sc, old, new = r
             ctx.case(f"{k}:reload", {"target": sc.name})
